@@ -55,6 +55,12 @@ def bytes_split_variant():
     return None
 
 
+def fasta_cr_variant():
+    """True when the bytes FASTA parser converts CR-only line ends (fix C06-8b): fail-closed text match"""
+    src = (core.REPO / "src" / "cogent3" / "parse" / "fasta.py").read_text()
+    return 'data = data.replace(b"\\r", b"\\n")' in src
+
+
 def gb_strip_variant():
     """iter_genbank_records: 0 = `if record.isspace():` (pinned), 1 = `record = record.lstrip()` + `if not record:`
     (proposed fix C06-7); None = unrecognised (variant 0 used, the correspondence must show the difference)"""
@@ -787,8 +793,9 @@ def wf_fasta_text(t, lch=">"):
     Lines end with \\n, \\r\\n or \\r (the three text-file conventions; no \\r may survive in a label or a sequence).
     Label lines start with the label character, the label is any printable ASCII / TAB text (blanks at either end
     and '>' inside allowed); below a label come lines of upper-case residues (letters - ? * .) with blanks / tabs
-    anywhere, possibly empty; a FASTA record may have NO residues at all (zero-length sequence: it must be returned
-    with an empty sequence); no line starts with '#' and only label lines with '>' / '%'."""
+    anywhere, possibly empty; a FASTA label WITHOUT residues is returned as (label, "") so that the caller can recognise
+    the text as malformed (label-only record: outside the parser-agreement clause); no line starts with '#' and only
+    label lines with '>' / '%'."""
     if not t:
         return None
     t = t.replace("\r\n", "\n").replace("\r", "\n")
@@ -824,8 +831,6 @@ def text_shape(text, exp):
         return "cr-only-line-ends"
     if "\r" in text:
         return "crlf"
-    if any(q == "" for _, q in exp):
-        return "empty-record"
     if any(">" in n for n, _ in exp):
         return "label-has-gt"
     return "plain"
@@ -854,7 +859,7 @@ def eol_empty_parse_cases(rng, n):
     for _ in range(n):
         recs = wf_recs(rng)
         r = rng.random()
-        if r < 0.45:
+        if r < 0.2:
             k = rng.randrange(len(recs) + 1)
             recs = recs[:k] + [[("e%d" % k), ""]] + recs[k:]
         t = py_fasta_text(recs, rng.choice([1, 2, 3, 60])) if rng.random() < 0.6 else decorate_text(rng, [x for x in recs if x[1]] or [["z", "A"]], 3)
@@ -969,8 +974,9 @@ def from_val_recs(v):
 def build_model_cases(cases, impl, variant=0, gb_variant=0):
     """-> list of (case index, tag, coq term)"""
     mc = []
-    fasta_round_id = 4 if variant == 1 else 0
-    bytes_which = 7 if variant == 1 else 2
+    c8b = fasta_cr_variant()
+    fasta_round_id = (5 if c8b else 4) if variant == 1 else 0
+    bytes_which = (9 if c8b else 7) if variant == 1 else 2
     for i, (c, r) in enumerate(zip(cases, impl)):
         k = c["kind"]
         if k == "round":
@@ -993,7 +999,8 @@ def build_model_cases(cases, impl, variant=0, gb_variant=0):
             mc.append((i, "round", f"CRound {fid} {zlit(w)} {crecs(made)}"))
         elif k == "parse":
             if modelable(c["text"]):
-                mc.append((i, "parse", f"CParse {bytes_which if c['which'] == 2 else c['which']} {zstr(c['text'])}"))
+                mw = bytes_which if c["which"] == 2 else c["which"]
+                mc.append((i, "parse", f"CParse {mw} {zstr(c['text'])}"))
             if c.get("il_std"):
                 mc.append((i, "ilwrite", f"CPhylipILWrite {zlit(c['il_std']['w'])} {crecs(c['il_std']['recs'])}"))
         elif k == "split":
@@ -1400,15 +1407,16 @@ def run(tier: str, seed: int) -> int:
         exp = wf_fasta_text(text, lch)
         if exp is None:
             continue
-        has_empty = any(q == "" for _, q in exp)
-        # the strict parser is documented to raise RecordError for a record without residues: an explicit refusal
-        bad = {w: v for w, v in by.items() if v != exp and not (has_empty and w in (0, 3) and v == {"exc": 9})}
+        if any(q == "" for _, q in exp):
+            # a label without residues is MALFORMED input by the library's own definition (the strict parser raises
+            # RecordError "... has no data"): outside the parser-agreement clause, oracle-silent (the round-trip clause
+            # for zero-length sequences, write -> load_unaligned_seqs, stays a hard check elsewhere)
+            stats["outside_wellformed:label-only-record"] = stats.get("outside_wellformed:label-only-record", 0) + len(by)
+            continue
+        bad = {w: v for w, v in by.items() if v != exp}
         if bad:
             nvio += 1
-            # the one known deviation with empty records: the non-strict line parser drops them and nothing else differs
-            drop = [r_ for r_ in exp if r_[1] != ""]
-            only_drop = has_empty and all(w == 1 and v == drop for w, v in bad.items())
-            shape = "empty-record" if only_drop else text_shape(text, exp)
+            shape = text_shape(text, exp)
             rep.violation(f"parsers-disagree:{wf}:{shape}",
                           dict(case=dict(kind="parse", which=sorted(bad)[0], text=text, wf=wf, block="agree"),
                                expected_by_spec=exp, observed_impl={str(w): v for w, v in by.items()}, model_output=None,
@@ -1443,7 +1451,8 @@ def run(tier: str, seed: int) -> int:
                                                  file_name_cells_never_produced=never_names, **stats),
         partial=PARTIAL, exhaustive=False, registered_formats=registered_formats(registry),
         json_clause="JSON: C06 keeps write / load_*_seqs correspondence (old and new collection types, plain and compressed); "
-                    "the to_json / deserialise round trip of collections and alignments is the subject of property C10", translator_tie=f"fasta bytes-parser split variant {variant}; genbank record-strip variant {gbv}", model_impl_disagreements=len(disagreements), spec_violations=nvio,
+                    "the to_json / deserialise round trip of collections and alignments is the subject of property C10", translator_tie=f"fasta bytes-parser split variant {variant}; genbank record-strip variant {gbv}; "
+                       f"bytes-parser CR-only variant (C06-8b) {fasta_cr_variant()}", model_impl_disagreements=len(disagreements), spec_violations=nvio,
     )
     if os.environ.get("C06_DEBUG"):
         for d_ in disagreements[:40]:
@@ -1465,9 +1474,12 @@ def replay(path: str) -> int:
         exp = wf_fasta_text(c["text"], ">" if c["wf"] == "fasta" else "%")
         print("oracle:", exp)
         bad = False
+        outside = exp is not None and any(q == "" for _, q in exp)   # label-only record: malformed, outside the clause
         for cc, r in zip(cs, rs):
-            print(f"impl which={cc['which']}:", r.get("result"))
-            bad |= r.get("result") != exp
+            res = r.get("result")
+            res = {"exc": res["exc"]} if isinstance(res, dict) else res
+            print(f"impl which={cc['which']}:", res)
+            bad |= (not outside) and exp is not None and res != exp
         print("REPRODUCED" if bad else "not reproduced")
         return 1 if bad else 0
     r = core.run_impl_lines("c06_impl.py", [c])[0]
